@@ -44,7 +44,10 @@ GAS_LETTERS = ['-', 'c:1e-3', 'c:0.5', 'c:0.25', 'c:0.3', 'c:1e-12', 'c:0.500000
                'tp:0.3>1e-6', 'tp:0.3>0.6', 'tp:0.6>0.3', 'arr', 'pow', 'tl']
 AVAIL = [['H2O'], [], ['H2O', 'CH4'], ['He', 'CO', 'Na'], ['CH4', 'H2', 'Na'],
          # opacity data for every gas there is, fill gases included: nothing is left non-absorbing
-         ['H2', 'He', 'N2', 'CO2', 'H2O', 'CH4', 'CO', 'Na']]
+         ['H2', 'He', 'N2', 'CO2', 'H2O', 'CH4', 'CO', 'Na'],
+         # opacity data for cobalt (Co): a name that differs from a gas of the mixture by letter case
+         # only: carbon monoxide (CO) stays non-absorbing
+         ['H2O', 'Co'], ['Co', 'NA']]
 CONTROLS = [1e-12, 1e-6, 1e-3, 0.3, 0.5, 'gen1', 'gen2']   # genN: seed-dependent generic value
 NS_QUICK = [2, 3, 4, 5, 7, 10, 13, 25, 30, 45, 100]
 PRANGES = {'std': (1e-4, 1e6), 'short': (1e-1, 1e5), 'wide': (1e-8, 1e4), 'narrow': (1e2, 1e3)}
